@@ -349,7 +349,7 @@ func c16SameCerts(got []*x509.Certificate, ders [][]byte) bool {
 }
 
 func checkC16(c *ev.Ctx) {
-	c.Rule("corpus: x509.CreateCertificate over subject keys {RSA1024,RSA2048,P-256,P-384,P-521} x signature algorithms {SHA1/256/384/512-RSA, PSS-256, ECDSA-SHA256/384/512} x every subset of 7 extension kinds (all 128); each member: field-by-field comparison with crypto/x509, +trailing data, +NULL-less RSA re-encoding; byte-mutation neighbourhood (every position x 7 replacements, every truncation) of a generating subset (quick 16+, thorough 64+ bases) for totality; PEM bundles of 0..5 x leading/trailing/between texts; ModHex over ALL extension values of length 0..4 (7-symbol alphabet) and 5..8 (3-symbol alphabet), absent, twice, per-position 256-value injectivity. non-trivial = corpus member compared / valid serial / bundle; distinct by construction parameters")
+	c.Rule("corpus: x509.CreateCertificate over subject keys {RSA1024,RSA2048,P-256,P-384,P-521} x signature algorithms {SHA1/256/384/512-RSA, PSS-256, ECDSA-SHA256/384/512} x every subset of 7 extension kinds (all 128); each member: field-by-field comparison with crypto/x509, every 8th member also re-encoded with issuer/subject unique IDs, +trailing data, +NULL-less RSA re-encoding; byte-mutation neighbourhood (every position x 7 replacements, every truncation) of a generating subset (quick 16+, thorough 64+ bases) for totality; PEM bundles of 0..5 x leading/trailing/between texts; ModHex over ALL extension values of length 0..4 (7-symbol alphabet) and 5..8 (3-symbol alphabet), absent, twice, per-position 256-value injectivity. non-trivial = corpus member compared / valid serial / bundle; distinct by construction parameters")
 	c.Assume("crypto/x509 is the reference decoder for well-formed certificates", "certificates are produced by crypto/x509's encoder (a conforming encoder)")
 	if c.ReplayCase != nil {
 		var k c16Case
@@ -435,6 +435,14 @@ func checkC16(c *ev.Ctx) {
 		c16CorpusMember(c, der, note, j.s.rsa)
 		if i%911 == 0 {
 			c.Sample(map[string]any{"kind": "corpus", "note": note, "der_len": len(der)})
+		}
+		if i%8 == 0 {
+			// legal members a conforming encoder may emit although crypto/x509's never does: issuer / subject unique IDs
+			for v, flags := range [][2]bool{{true, false}, {false, true}, {true, true}} {
+				if u, err := fix.WithUniqueIDs(der, flags[0], flags[1]); err == nil {
+					c16CorpusMember(c, u, fmt.Sprintf("%s uniqueIDs=%d", note, v), false)
+				}
+			}
 		}
 	})
 	// mutation neighbourhood
